@@ -1,11 +1,751 @@
-//! C07 — not built yet.
+//! C07 — the bytes a sink ends up with do not depend on how it accepts writes.
+//! Also holds the scripted sink and the session runner shared with C11.
+//!
+//! case line: kind \t keys \t prefill \t cap \t script \t flush \t calls
+//!   kind    raw-add | raw-insert | map | set, optionally "+finish" (finish() instead of into_inner())
+//!   keys    hexkey:value,...   ("-" = no keys; "-:5" = the empty key with value 5)
+//!   prefill hex of the bytes the sink already holds
+//!   cap     "-" or the capacity of a std::io::BufWriter put between builder and sink
+//!   script  responses of the sink, one per write call: aN accept min(N,len) | i Interrupted |
+//!           z Ok(0) | f<kind> Err(kind); "tok*K" repeats; exhausted = accept everything
+//!   flush   ok | f<kind>
+//!   calls   per API call (new, one per key, into_inner) the write_all chunks it performs through the
+//!           CountingWriter, as measured against an all-accepting recording sink: calls separated by
+//!           ';', chunks by ','. The model side needs nothing else.
 use crate::common::*;
+use fst::raw;
+use fst::Streamer;
+use std::io::{self, ErrorKind, Write};
+
 pub struct P;
-impl Prop for P {
-    fn generate(&self, _tier: Tier, _rng: &mut Rng, _stats: &mut Stats) -> Vec<String> {
-        vec![]
+
+// ---------------------------------------------------------------- scripted sink
+#[derive(Clone, Copy, PartialEq, Eq, Debug)]
+pub enum Resp {
+    Accept(usize),
+    Interrupted,
+    Zero,
+    Fail(ErrorKind),
+}
+#[derive(Clone, Copy, PartialEq, Eq, Debug)]
+pub enum FlushResp {
+    Ok,
+    Fail(ErrorKind),
+}
+
+pub struct ScriptSink {
+    pub script: Vec<Resp>,
+    pub pos: usize,
+    pub data: Vec<u8>,
+    pub calls: usize,
+    pub flush: FlushResp,
+    pub flushes: usize,
+    /// length of the buffer of every write call received
+    pub log: Vec<usize>,
+}
+impl ScriptSink {
+    pub fn new(script: Vec<Resp>, flush: FlushResp, prefill: &[u8]) -> ScriptSink {
+        ScriptSink { script, pos: 0, data: prefill.to_vec(), calls: 0, flush, flushes: 0, log: vec![] }
     }
-    fn execute(&self, _case: &str) -> String {
-        String::new()
+}
+// only write and flush: write_all is std's default loop
+impl Write for ScriptSink {
+    fn write(&mut self, buf: &[u8]) -> io::Result<usize> {
+        self.calls += 1;
+        self.log.push(buf.len());
+        let r = if self.pos < self.script.len() {
+            self.pos += 1;
+            self.script[self.pos - 1]
+        } else {
+            Resp::Accept(usize::MAX)
+        };
+        match r {
+            Resp::Accept(n) => {
+                let m = n.min(buf.len());
+                self.data.extend_from_slice(&buf[..m]);
+                Ok(m)
+            }
+            Resp::Interrupted => Err(io::Error::new(ErrorKind::Interrupted, "scripted")),
+            Resp::Zero => Ok(0),
+            Resp::Fail(k) => Err(io::Error::new(k, "scripted")),
+        }
+    }
+    fn flush(&mut self) -> io::Result<()> {
+        match self.flush {
+            FlushResp::Ok => {
+                self.flushes += 1;
+                Ok(())
+            }
+            FlushResp::Fail(k) => Err(io::Error::new(k, "scripted flush")),
+        }
+    }
+}
+
+pub const KINDS: [(&str, ErrorKind); 9] = [
+    ("other", ErrorKind::Other),
+    ("brokenpipe", ErrorKind::BrokenPipe),
+    ("writezero", ErrorKind::WriteZero),
+    ("interrupted", ErrorKind::Interrupted),
+    ("k1", ErrorKind::PermissionDenied),
+    ("k2", ErrorKind::ConnectionReset),
+    ("k3", ErrorKind::TimedOut),
+    ("k4", ErrorKind::UnexpectedEof),
+    ("k5", ErrorKind::InvalidData),
+];
+pub fn kind_name(k: ErrorKind) -> String {
+    for (n, kk) in KINDS.iter() {
+        if *kk == k {
+            return n.to_string();
+        }
+    }
+    format!("k99[{:?}]", k)
+}
+pub fn kind_of(s: &str) -> ErrorKind {
+    for (n, kk) in KINDS.iter() {
+        if *n == s {
+            return *kk;
+        }
+    }
+    panic!("unknown error kind {}", s)
+}
+
+pub fn script_string(s: &[Resp]) -> String {
+    if s.is_empty() {
+        return "-".to_string();
+    }
+    let tok = |r: &Resp| match r {
+        Resp::Accept(n) => format!("a{}", n),
+        Resp::Interrupted => "i".to_string(),
+        Resp::Zero => "z".to_string(),
+        Resp::Fail(k) => format!("f{}", kind_name(*k)),
+    };
+    let mut out: Vec<String> = vec![];
+    let mut i = 0;
+    while i < s.len() {
+        let mut j = i;
+        while j < s.len() && s[j] == s[i] {
+            j += 1;
+        }
+        if j - i > 1 {
+            out.push(format!("{}*{}", tok(&s[i]), j - i));
+        } else {
+            out.push(tok(&s[i]));
+        }
+        i = j;
+    }
+    out.join(",")
+}
+pub fn parse_script(s: &str) -> Vec<Resp> {
+    let mut v = vec![];
+    if s == "-" || s.is_empty() {
+        return v;
+    }
+    for t in s.split(',') {
+        let (t, k) = match t.find('*') {
+            Some(i) => (&t[..i], t[i + 1..].parse::<usize>().unwrap()),
+            None => (t, 1),
+        };
+        let r = match t.as_bytes()[0] {
+            b'a' => Resp::Accept(t[1..].parse().unwrap()),
+            b'i' => Resp::Interrupted,
+            b'z' => Resp::Zero,
+            b'f' => Resp::Fail(kind_of(&t[1..])),
+            _ => panic!("script token"),
+        };
+        for _ in 0..k {
+            v.push(r);
+        }
+    }
+    v
+}
+pub fn flush_string(f: FlushResp) -> String {
+    match f {
+        FlushResp::Ok => "ok".to_string(),
+        FlushResp::Fail(k) => format!("f{}", kind_name(k)),
+    }
+}
+pub fn parse_flush(s: &str) -> FlushResp {
+    if s == "ok" {
+        FlushResp::Ok
+    } else {
+        FlushResp::Fail(kind_of(&s[1..]))
+    }
+}
+
+// ---------------------------------------------------------------- builder sessions
+pub type Kv = (Vec<u8>, u64);
+
+pub fn keys_string(kvs: &[Kv]) -> String {
+    if kvs.is_empty() {
+        return "-".to_string();
+    }
+    kvs.iter().map(|(k, v)| format!("{}:{}", hex(k), v)).collect::<Vec<_>>().join(",")
+}
+pub fn parse_keys(s: &str) -> Vec<Kv> {
+    if s == "-" {
+        return vec![];
+    }
+    s.split(',')
+        .map(|t| {
+            let i = t.find(':').unwrap();
+            (unhex(&t[..i]), t[i + 1..].parse().unwrap())
+        })
+        .collect()
+}
+
+pub const BUILDER_KINDS: [&str; 8] =
+    ["raw-add", "raw-insert", "map", "set", "raw-add+finish", "raw-insert+finish", "map+finish", "set+finish"];
+
+enum AnyBuilder<W: Write> {
+    Raw(raw::Builder<W>),
+    Map(fst::MapBuilder<W>),
+    Set(fst::SetBuilder<W>),
+}
+impl<W: Write> AnyBuilder<W> {
+    fn new(kind: &str, w: W) -> fst::Result<AnyBuilder<W>> {
+        Ok(match kind {
+            "raw-add" | "raw-insert" => AnyBuilder::Raw(raw::Builder::new(w)?),
+            "map" => AnyBuilder::Map(fst::MapBuilder::new(w)?),
+            "set" => AnyBuilder::Set(fst::SetBuilder::new(w)?),
+            _ => panic!("builder kind {}", kind),
+        })
+    }
+    fn step(&mut self, kind: &str, k: &[u8], v: u64) -> fst::Result<()> {
+        match self {
+            AnyBuilder::Raw(b) => {
+                if kind == "raw-add" {
+                    b.add(k)
+                } else {
+                    b.insert(k, v)
+                }
+            }
+            AnyBuilder::Map(b) => b.insert(k, v),
+            AnyBuilder::Set(b) => b.insert(k),
+        }
+    }
+    fn get_ref(&self) -> &W {
+        match self {
+            AnyBuilder::Raw(b) => b.get_ref(),
+            AnyBuilder::Map(b) => b.get_ref(),
+            AnyBuilder::Set(b) => b.get_ref(),
+        }
+    }
+    fn bytes_written(&self) -> u64 {
+        match self {
+            AnyBuilder::Raw(b) => b.bytes_written(),
+            AnyBuilder::Map(b) => b.bytes_written(),
+            AnyBuilder::Set(b) => b.bytes_written(),
+        }
+    }
+    fn into_inner(self) -> fst::Result<W> {
+        match self {
+            AnyBuilder::Raw(b) => b.into_inner(),
+            AnyBuilder::Map(b) => b.into_inner(),
+            AnyBuilder::Set(b) => b.into_inner(),
+        }
+    }
+    fn finish(self) -> fst::Result<()> {
+        match self {
+            AnyBuilder::Raw(b) => b.finish(),
+            AnyBuilder::Map(b) => b.finish(),
+            AnyBuilder::Set(b) => b.finish(),
+        }
+    }
+}
+
+#[derive(Clone, PartialEq, Eq, Debug)]
+pub enum Status {
+    Ok,
+    Io(ErrorKind),
+    NotIo(String),
+}
+impl Status {
+    pub fn of<T>(r: &fst::Result<T>) -> Status {
+        match r {
+            Ok(_) => Status::Ok,
+            Err(fst::Error::Io(e)) => Status::Io(e.kind()),
+            Err(e) => Status::NotIo(format!("{:?}", e).replace(['\t', '\n'], " ")),
+        }
+    }
+    pub fn show(&self) -> String {
+        match self {
+            Status::Ok => "ok".to_string(),
+            Status::Io(k) => format!("err({})", kind_name(*k)),
+            Status::NotIo(s) => format!("err-not-io[{}]", s),
+        }
+    }
+}
+
+/// What the writer below the CountingWriter looks like from outside.
+#[derive(Clone, Copy, Debug)]
+pub struct Obs {
+    /// bytes it has accepted, prefill included (for a BufWriter: sink data + buffered)
+    pub acc: usize,
+    /// write calls the sink has received
+    pub calls: usize,
+}
+
+pub struct CallRec {
+    pub status: Status,
+    /// bytes_written() right after the call (None when there is no builder to ask)
+    pub bw: Option<u64>,
+    pub obs: Option<Obs>,
+}
+pub struct SessionLog {
+    /// new, one per key; stops after the first failing call
+    pub calls: Vec<CallRec>,
+    /// into_inner()/finish(), if reached
+    pub fin: Option<Status>,
+}
+
+/// Runs new, add/insert per key, into_inner/finish against `w`, stopping at the first failure.
+pub fn run_session<W: Write, O: Fn(&W) -> Obs>(kind: &str, w: W, kvs: &[Kv], obs: O) -> SessionLog {
+    let (base, use_finish) = match kind.strip_suffix("+finish") {
+        Some(b) => (b, true),
+        None => (kind, false),
+    };
+    let mut log = SessionLog { calls: vec![], fin: None };
+    let r = AnyBuilder::new(base, w);
+    let st = Status::of(&r);
+    let mut b = match r {
+        Ok(b) => {
+            log.calls.push(CallRec { status: st, bw: Some(b.bytes_written()), obs: Some(obs(b.get_ref())) });
+            b
+        }
+        Err(_) => {
+            log.calls.push(CallRec { status: st, bw: None, obs: None });
+            return log;
+        }
+    };
+    for (k, v) in kvs {
+        let r = b.step(base, k, *v);
+        let st = Status::of(&r);
+        let ok = st == Status::Ok;
+        log.calls.push(CallRec { status: st, bw: Some(b.bytes_written()), obs: Some(obs(b.get_ref())) });
+        if !ok {
+            return log;
+        }
+    }
+    if use_finish {
+        log.fin = Some(Status::of(&b.finish()));
+    } else {
+        log.fin = Some(Status::of(&b.into_inner()));
+    }
+    log
+}
+
+/// The in-memory reference: bytes, and per API call the chunks written through the CountingWriter
+/// (every write call of an all-accepting sink is one write_all chunk; the last write of the
+/// session is the 4 checksum bytes, which bypass the CountingWriter).
+pub struct Reference {
+    pub bytes: Vec<u8>,
+    pub calls: Vec<Vec<Vec<u8>>>,
+    /// write calls in total, the checksum write included
+    pub w: usize,
+}
+pub fn reference(kind: &str, kvs: &[Kv]) -> Reference {
+    let mut sink = ScriptSink::new(vec![], FlushResp::Ok, &[]);
+    let log = run_session(kind, &mut sink, kvs, |w: &&mut ScriptSink| Obs { acc: w.data.len(), calls: w.calls });
+    assert!(log.fin == Some(Status::Ok), "reference build failed");
+    let mut bounds: Vec<usize> = log.calls.iter().map(|c| c.obs.unwrap().calls).collect();
+    let w = sink.calls;
+    assert!(w >= 1 && sink.log[w - 1] == 4, "last write is not the checksum");
+    bounds.push(w - 1);
+    let mut calls = vec![];
+    let (mut wi, mut off) = (0usize, 0usize);
+    for b in bounds {
+        let mut chunks = vec![];
+        while wi < b {
+            chunks.push(sink.data[off..off + sink.log[wi]].to_vec());
+            off += sink.log[wi];
+            wi += 1;
+        }
+        calls.push(chunks);
+    }
+    Reference { bytes: sink.data, calls, w }
+}
+pub fn calls_string(calls: &[Vec<Vec<u8>>]) -> String {
+    calls.iter().map(|c| c.iter().map(|ch| hex(ch)).collect::<Vec<_>>().join(",")).collect::<Vec<_>>().join(";")
+}
+
+pub struct Case {
+    pub kind: String,
+    pub kvs: Vec<Kv>,
+    pub prefill: Vec<u8>,
+    pub cap: Option<usize>,
+    pub script: Vec<Resp>,
+    pub flush: FlushResp,
+    pub calls: String,
+}
+impl Case {
+    pub fn parse(line: &str) -> Case {
+        let f: Vec<&str> = line.split('\t').collect();
+        Case {
+            kind: f[0].to_string(),
+            kvs: parse_keys(f[1]),
+            prefill: unhex(f[2]),
+            cap: if f[3] == "-" { None } else { Some(f[3].parse().unwrap()) },
+            script: parse_script(f[4]),
+            flush: parse_flush(f[5]),
+            calls: f[6].to_string(),
+        }
+    }
+}
+pub fn case_line(kind: &str, kvs: &[Kv], prefill: &[u8], cap: Option<usize>, script: &[Resp], flush: FlushResp, calls: &str) -> String {
+    format!(
+        "{}\t{}\t{}\t{}\t{}\t{}\t{}",
+        kind,
+        keys_string(kvs),
+        hex(prefill),
+        cap.map(|c| c.to_string()).unwrap_or_else(|| "-".to_string()),
+        script_string(script),
+        flush_string(flush),
+        calls
+    )
+}
+
+pub struct Scripted {
+    pub log: SessionLog,
+    pub data: Vec<u8>,
+    pub calls: usize,
+    pub flushes: usize,
+    /// capacity std actually gave the BufWriter, if any
+    pub real_cap: Option<usize>,
+}
+pub fn run_scripted(c: &Case) -> Scripted {
+    let mut sink = ScriptSink::new(c.script.clone(), c.flush, &c.prefill);
+    let mut real_cap = None;
+    let log = match c.cap {
+        None => run_session(&c.kind, &mut sink, &c.kvs, |w: &&mut ScriptSink| Obs { acc: w.data.len(), calls: w.calls }),
+        Some(cap) => {
+            let bw = io::BufWriter::with_capacity(cap, &mut sink);
+            real_cap = Some(bw.capacity());
+            run_session(&c.kind, bw, &c.kvs, |w: &io::BufWriter<&mut ScriptSink>| Obs {
+                acc: w.get_ref().data.len() + w.buffer().len(),
+                calls: w.get_ref().calls,
+            })
+        }
+    };
+    Scripted { log, data: sink.data, calls: sink.calls, flushes: sink.flushes, real_cap }
+}
+
+pub fn fnv(b: &[u8]) -> u32 {
+    let mut h: u32 = 0x811c9dc5;
+    for &x in b {
+        h = (h ^ x as u32).wrapping_mul(16777619);
+    }
+    h
+}
+/// the M field shared by C07 and C11
+pub fn m_common(s: &Scripted, npre: usize, total: usize) -> String {
+    let calls = s
+        .log
+        .calls
+        .iter()
+        .map(|c| format!("{}:{}", c.status.show(), c.bw.map(|b| b.to_string()).unwrap_or_else(|| "-".to_string())))
+        .collect::<Vec<_>>()
+        .join(",");
+    let fin = s.log.fin.as_ref().map(|f| f.show()).unwrap_or_else(|| "none".to_string());
+    let upto = s.data.len().min(npre + total);
+    format!("{}|{}|len={}|calls={}|fl={}|dig={:08x}", calls, fin, s.data.len(), s.calls, s.flushes, fnv(&s.data[..upto]))
+}
+
+/// the keys an FST built from `kvs` by `kind` must hold
+pub fn expected_content(kind: &str, kvs: &[Kv]) -> Vec<Kv> {
+    let setlike = kind.starts_with("raw-add") || kind.starts_with("set");
+    let mut out: Vec<Kv> = vec![];
+    for (k, v) in kvs {
+        let v = if setlike { 0 } else { *v };
+        if out.last().map(|(lk, _)| lk == k).unwrap_or(false) {
+            continue;
+        }
+        out.push((k.clone(), v));
+    }
+    out
+}
+pub fn fst_content(f: &raw::Fst<&[u8]>) -> Vec<Kv> {
+    let mut out = vec![];
+    let mut s = f.stream();
+    while let Some((k, o)) = s.next() {
+        out.push((k.to_vec(), o.value()));
+    }
+    out
+}
+
+// ---------------------------------------------------------------- key lists
+fn val(rng: &mut Rng) -> u64 {
+    match rng.below(6) {
+        0 => 0,
+        1 => rng.below(256),
+        2 => 300,
+        3 => rng.below(1 << 20),
+        4 => u64::MAX - rng.below(3),
+        _ => rng.next(),
+    }
+}
+fn sorted_unique(mut ks: Vec<Vec<u8>>) -> Vec<Vec<u8>> {
+    ks.sort();
+    ks.dedup();
+    ks
+}
+pub fn witness_kvs() -> Vec<Kv> {
+    ["bar", "baz", "foo", "quux"].iter().map(|k| (k.as_bytes().to_vec(), 300u64)).collect()
+}
+/// small FSTs for which schedules are explored exhaustively
+pub fn small_key_lists(rng: &mut Rng) -> Vec<Vec<Kv>> {
+    let mut out: Vec<Vec<Kv>> = vec![vec![], vec![(vec![], 0)], vec![(vec![], 5)], vec![(vec![], 7), (b"a".to_vec(), 5)], witness_kvs()];
+    // every subset of a small universe
+    let uni: [&[u8]; 5] = [b"", b"a", b"ab", b"b", b"ba"];
+    for mask in 1u32..32 {
+        let mut kv = vec![];
+        for (i, k) in uni.iter().enumerate() {
+            if mask & (1 << i) != 0 {
+                kv.push((k.to_vec(), if mask % 3 == 0 { 0 } else { (i as u64 + 1) * (mask as u64) * 37 }));
+            }
+        }
+        out.push(kv);
+    }
+    for _ in 0..40 {
+        let n = rng.range(1, 5);
+        let ks = sorted_unique((0..n).map(|_| (0..rng.range(0, 4)).map(|_| b'a' + rng.below(3) as u8).collect()).collect());
+        out.push(ks.into_iter().map(|k| (k, val(rng))).collect());
+    }
+    out
+}
+pub fn random_key_list(rng: &mut Rng) -> Vec<Kv> {
+    match rng.below(10) {
+        0 => {
+            // wide fan-out: more than TRANS_INDEX_THRESHOLD transitions => one 256-byte chunk
+            let n = rng.range(33, 70);
+            let mut ks: Vec<Vec<u8>> = (0..n).map(|i| vec![(i * 3 + 1) as u8]).collect();
+            if rng.chance(1, 2) {
+                ks.push(vec![1, 2, 3]);
+            }
+            sorted_unique(ks).into_iter().map(|k| (k, if rng.chance(1, 2) { 0 } else { val(rng) })).collect()
+        }
+        1 => {
+            // one long key, or a few sharing long prefixes / suffixes
+            let l = rng.range(20, 120);
+            let base: Vec<u8> = (0..l).map(|_| rng.below(256) as u8).collect();
+            let mut ks = vec![base.clone()];
+            for _ in 0..rng.range(0, 3) {
+                let mut k = base[..rng.range(0, l)].to_vec();
+                k.extend((0..rng.range(0, 5)).map(|_| rng.below(256) as u8));
+                ks.push(k);
+            }
+            sorted_unique(ks).into_iter().map(|k| (k, val(rng))).collect()
+        }
+        _ => {
+            let n = rng.range(1, 14);
+            let alpha = rng.range(2, 5) as u64;
+            let maxlen = rng.range(1, 6);
+            let ks = sorted_unique(
+                (0..n).map(|_| (0..rng.range(0, maxlen)).map(|_| b'a' + rng.below(alpha) as u8).collect()).collect(),
+            );
+            let same = rng.chance(1, 4);
+            ks.into_iter().map(|k| (k, if same { 300 } else { val(rng) })).collect()
+        }
+    }
+}
+/// set-style builders accept repeated keys: sometimes repeat one
+pub fn maybe_repeat(kind: &str, kvs: &mut Vec<Kv>, rng: &mut Rng) {
+    if (kind.starts_with("raw-add") || kind.starts_with("set")) && !kvs.is_empty() && rng.chance(1, 5) {
+        let i = rng.below(kvs.len() as u64) as usize;
+        let kv = kvs[i].clone();
+        kvs.insert(i, kv);
+    }
+}
+
+// ---------------------------------------------------------------- schedules
+fn chunk_lens(r: &Reference) -> Vec<usize> {
+    let mut v: Vec<usize> = r.calls.iter().flat_map(|c| c.iter().map(|ch| ch.len())).collect();
+    v.push(4);
+    v
+}
+pub fn fixed_cap_script(r: &Reference, cap: usize) -> Vec<Resp> {
+    let n: usize = chunk_lens(r).iter().map(|l| (l + cap - 1) / cap).sum();
+    vec![Resp::Accept(cap); n]
+}
+pub const ALL: usize = 1000; // larger than any chunk
+pub fn random_script(rng: &mut Rng, len: usize, short_pct: u64, intr_pct: u64) -> Vec<Resp> {
+    (0..len)
+        .map(|_| {
+            if rng.below(100) < intr_pct {
+                Resp::Interrupted
+            } else if rng.below(100) < short_pct {
+                Resp::Accept(rng.range(1, 9))
+            } else {
+                Resp::Accept(ALL)
+            }
+        })
+        .collect()
+}
+
+impl Prop for P {
+    fn generate(&self, tier: Tier, rng: &mut Rng, stats: &mut Stats) -> Vec<String> {
+        let mut cases = vec![];
+        let push = |cases: &mut Vec<String>, stats: &mut Stats, fam: &str, kind: &str, kvs: &[Kv], r: &Reference, prefill: &[u8], cap: Option<usize>, script: &[Resp]| {
+            stats.bump(fam);
+            cases.push(case_line(kind, kvs, prefill, cap, script, FlushResp::Ok, &calls_string(&r.calls)));
+        };
+        let (nrand, nbuf) = match tier {
+            Tier::Quick => (700, 40),
+            Tier::Thorough => (3000, 200),
+            Tier::Wide => (1500, 120),
+        };
+        // the historical witness: caps 1..7 and one Interrupted, all four builder front ends
+        {
+            let kvs = witness_kvs();
+            for kind in ["raw-insert", "map", "raw-add", "set+finish"] {
+                let r = reference(kind, &kvs);
+                for cap in 1..=7 {
+                    push(&mut cases, stats, "witness", kind, &kvs, &r, &[], None, &fixed_cap_script(&r, cap));
+                }
+                push(&mut cases, stats, "witness", kind, &kvs, &r, &[], None, &[Resp::Interrupted]);
+            }
+        }
+        // small FSTs: every fixed cap 1..16, every position of one short write, every position of
+        // one Interrupted
+        for (i, kvs) in small_key_lists(rng).into_iter().enumerate() {
+            let kind = BUILDER_KINDS[i % BUILDER_KINDS.len()];
+            let r = reference(kind, &kvs);
+            stats.add("small_fst_write_calls", r.w as u64);
+            for cap in 1..=16 {
+                push(&mut cases, stats, "small_fixed_cap", kind, &kvs, &r, &[], None, &fixed_cap_script(&r, cap));
+            }
+            for pos in 0..r.w {
+                let mut s = vec![Resp::Accept(ALL); pos];
+                s.push(Resp::Accept(1));
+                push(&mut cases, stats, "small_one_short_write", kind, &kvs, &r, &[], None, &s);
+                let mut s = vec![Resp::Accept(ALL); pos];
+                s.push(Resp::Interrupted);
+                push(&mut cases, stats, "small_one_interrupted", kind, &kvs, &r, &[], None, &s);
+            }
+        }
+        // random FSTs x random schedules, prefills, BufWriter
+        for _ in 0..nrand {
+            let kind = *rng.pick(&BUILDER_KINDS);
+            let mut kvs = random_key_list(rng);
+            maybe_repeat(kind, &mut kvs, rng);
+            let r = reference(kind, &kvs);
+            let total = r.bytes.len();
+            let cap = rng.range(1, 16);
+            push(&mut cases, stats, "random_fixed_cap", kind, &kvs, &r, &[], None, &fixed_cap_script(&r, cap));
+            for _ in 0..3 {
+                let s = random_script(rng, total + 8, 60, 0);
+                push(&mut cases, stats, "random_caps", kind, &kvs, &r, &[], None, &s);
+            }
+            for _ in 0..3 {
+                let pct = rng.range(1, 30) as u64;
+                let s = random_script(rng, r.w * 2, 0, pct);
+                push(&mut cases, stats, "random_interrupted", kind, &kvs, &r, &[], None, &s);
+            }
+            for _ in 0..2 {
+                let pct = rng.range(1, 30) as u64;
+                let s = random_script(rng, total + 8, 50, pct);
+                push(&mut cases, stats, "random_mixed", kind, &kvs, &r, &[], None, &s);
+            }
+            for plen in [0usize, 1, 7, 100] {
+                let prefill: Vec<u8> = (0..plen).map(|_| rng.below(256) as u8).collect();
+                let s = random_script(rng, total + 8, 40, 15);
+                push(&mut cases, stats, "prefilled", kind, &kvs, &r, &prefill, None, &s);
+            }
+            for _ in 0..6 {
+                let bcap = rng.range(0, 64);
+                let s = match rng.below(3) {
+                    0 => vec![],
+                    1 => vec![Resp::Accept(rng.range(1, 16)); total + 8],
+                    _ => random_script(rng, total + 8, 50, 20),
+                };
+                let prefill: Vec<u8> = if rng.chance(1, 4) { vec![0xEE; rng.range(1, 9)] } else { vec![] };
+                push(&mut cases, stats, "bufwriter_random_cap", kind, &kvs, &r, &prefill, Some(bcap), &s);
+            }
+        }
+        // BufWriter: every capacity 0..64 (and a few larger) over scripted inner sinks
+        for i in 0..nbuf {
+            let kind = BUILDER_KINDS[i % BUILDER_KINDS.len()];
+            let mut kvs = if i % 5 == 0 { witness_kvs() } else { random_key_list(rng) };
+            maybe_repeat(kind, &mut kvs, rng);
+            let r = reference(kind, &kvs);
+            let total = r.bytes.len();
+            for bcap in (0..=64).chain([127, 255, 256, 257, 300]) {
+                let s = match (i + bcap) % 3 {
+                    0 => vec![Resp::Accept(rng.range(1, 16)); total + 8],
+                    1 => random_script(rng, total + 8, 60, 25),
+                    _ => vec![],
+                };
+                push(&mut cases, stats, "bufwriter_every_cap", kind, &kvs, &r, &[], Some(bcap), &s);
+            }
+        }
+        cases
+    }
+
+    fn nontrivial(&self, case: &str) -> bool {
+        let f: Vec<&str> = case.split('\t').collect();
+        f.len() == 7 && f[1] != "-" && (f[4] != "-" || f[3] != "-")
+    }
+
+    fn execute(&self, case: &str) -> String {
+        let c = Case::parse(case);
+        let r = reference(&c.kind, &c.kvs);
+        let mut x = String::from("ok");
+        if calls_string(&r.calls) != c.calls {
+            x = "chunk lists in the case line are not those of the in-memory build".to_string();
+        }
+        // in-memory builds through the convenience constructors share the same code
+        if c.kind.starts_with("map") {
+            let m = fst::Map::from_iter(c.kvs.iter().map(|(k, v)| (k.clone(), *v))).unwrap();
+            if m.as_fst().as_bytes() != &r.bytes[..] {
+                x = "Map::from_iter bytes differ from MapBuilder over a sink".to_string();
+            }
+        } else if c.kind.starts_with("set") {
+            let s = fst::Set::from_iter(c.kvs.iter().map(|(k, _)| k.clone())).unwrap();
+            if s.as_fst().as_bytes() != &r.bytes[..] {
+                x = "Set::from_iter bytes differ from SetBuilder over a sink".to_string();
+            }
+        }
+        let s = run_scripted(&c);
+        if let (Some(want), Some(got)) = (c.cap, s.real_cap) {
+            if want != got {
+                x = format!("BufWriter::with_capacity({}) has capacity {}", want, got);
+            }
+        }
+        let npre = c.prefill.len();
+        let total: usize = r.bytes.len() - 4;
+        let spec = (|| -> String {
+            for cr in &s.log.calls {
+                if cr.status != Status::Ok {
+                    return "differs:call-failed".to_string();
+                }
+            }
+            if s.log.fin != Some(Status::Ok) {
+                return "differs:finish-failed".to_string();
+            }
+            if s.data.len() < npre || s.data[..npre] != c.prefill[..] || s.data[npre..] != r.bytes[..] {
+                return "differs:bytes".to_string();
+            }
+            if s.flushes < 1 {
+                return "differs:not-flushed".to_string();
+            }
+            for cr in &s.log.calls {
+                match (cr.bw, cr.obs) {
+                    (Some(bw), Some(o)) if bw as usize == o.acc - npre => {}
+                    _ => return "differs:bytes_written".to_string(),
+                }
+            }
+            let body = &s.data[npre..];
+            let f = match raw::Fst::new(body) {
+                Ok(f) => f,
+                Err(_) => return "differs:does-not-open".to_string(),
+            };
+            if f.verify().is_err() {
+                return "differs:verify-fails".to_string();
+            }
+            if fst_content(&f) != expected_content(&c.kind, &c.kvs) {
+                return "differs:content".to_string();
+            }
+            "equal".to_string()
+        })();
+        format!("S:{}\tM:{}\tX:{}", spec, m_common(&s, npre, total), x)
     }
 }
